@@ -226,6 +226,9 @@ def oracle(chk, pid, labelled, need):
                  sample={"label": lab, "program": srcs[i], "expected": ref[1] if ref[0] == "ok" else list(ref)}
                  if (lab.startswith("witness") or lab.startswith("regression") or i % 211 == 7) else None)
         c = classify(ref, r)
+        if c is not None and ref[0] == "ok" and sc.tolerate_interpreter_deviation(
+                chk, r, sp.POOL, lambda res, ref=ref: classify(ref, res) is None, srcs[i]):
+            c = None
         if c is not None:
             failing.append((i, c, r))
     for i, r in enumerate(refs):
@@ -248,7 +251,9 @@ def oracle(chk, pid, labelled, need):
             if ref[0] == "ambiguous" or ref != sp.reference(labelled[i][1]):
                 vres.setdefault(i, {})[name] = "reference-changed"
             else:
-                vres.setdefault(i, {})[name] = "pass" if classify(ref, r) is None else "fail"
+                ok = classify(ref, r) is None or (ref[0] == "ok" and sc.tolerate_interpreter_deviation(
+                    chk, r, sp.POOL, lambda res, ref=ref: classify(ref, res) is None, sp.render_program(vf)))
+                vres.setdefault(i, {})[name] = "pass" if ok else "fail"
     for i, c, r in failing:
         lab, forms = labelled[i]
         ref = refs[i]
